@@ -4,6 +4,7 @@ import GdcVerif.Model.Dwt53
 import GdcVerif.Model.Mqc
 import GdcVerif.Gen.J2kT1
 import GdcVerif.Model.T1
+import GdcVerif.Model.T1Layered
 /-! Driver ops of C20: RCT, 5/3 DWT, MQ coder. -/
 namespace Drv.C20
 open Drv
@@ -103,6 +104,20 @@ def step? : List String → Option String
       | .err => "err"
       | .panic => "panic"
     | _, _ => "bad-op"
+  | ["t1-lenc", w, h, o, sty, np, xs] => some <| match nats? [w, h, o, sty, np], parseInts xs with
+    | some [w, h, o, sty, np], some xs =>
+      match T1.encodeLayered w h o sty xs np with
+      | .ok (rates, mb, bs) => s!"ok {natsOut rates} {mb} {bytesToHex bs}"
+      | .err => "err"
+      | .panic => "panic"
+    | _, _ => "bad-op"
+  | ["t1-ldec", w, h, o, sty, mb, lens, hx] => some <| match nats? [w, h, o, sty], mb.toInt?, parseInts lens with
+    | some [w, h, o, sty], some mb, some lens =>
+      match T1.decodeLayered w h o sty mb (lens.map Int.toNat) (hexToBytes hx) with
+      | .ok xs => "ok " ++ intsToStr xs
+      | .err => "err"
+      | .panic => "panic"
+    | _, _, _ => "bad-op"
   | ["t1-lut", name, i] => some <| match i.toNat? with
     | some i =>
       let t := match name with
